@@ -92,6 +92,17 @@ def f_area(o):
     return o.value * 7 + o.other * 3
 
 
+def f_maybe(o):
+    # legitimately None in some states ("current selection or None"): None is a value like any other
+    return None if o.value % 2 == 0 else o.value * 5
+
+
+def f_dynchild(o):
+    # the dependency is an INSTANCE trait of the child (added with add_trait before the child is attached)
+    c = o.child
+    return c.extra * 2 + 1 if c is not None else -1
+
+
 def f_optdep(o):
     # depends on a trait the class does not define (observed as optional): -1 until it is added with add_trait
     try:
@@ -151,6 +162,7 @@ PROPS = {
     "raw": ("raw", f_raw),
     "area": (["value", "other"], f_area),
     "optdep": (_otrait("extra", optional=True), f_optdep),
+    "maybe": ("value", f_maybe),
 }
 IDX = {}          # id(obj) -> pool index of the case being run (for the identity-dependent getters)
 IDFUNS = {"mitems": f_mitems, "sitems": f_sitems}
@@ -192,7 +204,7 @@ def _mk_explicit(cached):
 
 _ns["c_xscalar"] = _mk_explicit(True)
 _ns["u_xscalar"] = _mk_explicit(False)
-EXTRA_PROPS = {"xscalar": f_scalar}
+EXTRA_PROPS = {"xscalar": f_scalar, "dynchild": f_dynchild}
 
 
 def f_other(o):
@@ -241,6 +253,14 @@ RootSub = type("RootSub", (Root,), dict([("_get_u_" + _n, _mk_sub(_n, _fn)) for 
                                         + [("__module__", __name__)]))
 
 
+# a class whose property depends on an INSTANCE trait of the child through a required name (every object of the pool
+# gets the trait with add_trait before the links are set)
+RootDynChild = type("RootDynChild", (Root,), {
+    "c_dynchild": Property(Int, observe="child.extra"), "_get_c_dynchild": _mk("dynchild", f_dynchild, True),
+    "u_dynchild": Property(Int, observe="child.extra"), "_get_u_dynchild": _mk("dynchild", f_dynchild, False),
+    "__module__": __name__})
+
+
 # ---------- from-scratch view of what the observe expression matches ----------
 PATHS = {
     "scalar": [["value"]], "child": [["child", "value"]], "kids": [["kids", "*", "value"]],
@@ -248,10 +268,10 @@ PATHS = {
     "nested": [["child", "kids", "*", "value"]], "kidchild": [["kids", "*", "child", "value"]],
     "multi": [["value"], ["child", "value"], ["nums", "*"]],
     "mitems": [["m", "*"]], "sitems": [["s", "*"]], "xscalar": [["value"]], "redecl": [["other"]],
-    "area": [["value"], ["other"]],
+    "area": [["value"], ["other"]], "maybe": [["value"]], "dynchild": [["child", "extra"]],
 }
 # (the "raw" and "chain" shapes have their own view below)
-TCODE = {"value": 1, "other": 2, "child": 3, "kids": 4, "m": 5, "s": 6, "nums": 7}
+TCODE = {"value": 1, "other": 2, "child": 3, "kids": 4, "m": 5, "s": 6, "nums": 7, "extra": 8}
 
 
 def members(c):
@@ -286,7 +306,7 @@ def walk(obj, path, idx, matched, view):
         return
     matched.add(("t", id(obj), name))
     val = obj.__dict__.get(name)
-    if name in ("value", "other"):
+    if name in ("value", "other", "extra"):
         view += [TCODE[name], idx.get(id(obj), -9), val if val is not None else 0]
         return
     if name == "child":
@@ -320,7 +340,7 @@ def run_case(case):
     sub = bool(case.get("sub"))
     added = case.get("added")                # "instance" / "class": the property is added with add_trait / add_class_trait
     redecl = bool(case.get("redecl"))        # prop "scalar", cached: c_scalar redeclared with observe="other"
-    RootCls = RootRedecl if redecl else RootSub if sub else Root
+    RootCls = RootRedecl if redecl else RootSub if sub else RootDynChild if pname == "dynchild" else Root
     attr = ("u_" if (sub or not cached) else "c_") + pname
     if added:
         # listed finding: has_traits.add_trait / add_class_trait ignore the `observe` metadata of a Property
@@ -352,6 +372,9 @@ def run_case(case):
             pool[i] = (RootCls if i == 0 else Node)(**kw)
     else:
         pool = [RootCls()] + [Node() for _ in range(n - 1)]
+        if pname == "dynchild":
+            for o in pool:
+                o.add_trait("extra", Int())
         for i, d in enumerate(case["init"]):
             o = pool[i]
             o.value = d["value"]
@@ -422,7 +445,7 @@ def run_case(case):
         return None if v is Undefined else canon(v)
 
     matched, view0 = snapshot_view(pool[0], vname, idx_of())
-    out = {"init_view": view0, "init_oracle": fn(pool[0]), "hist": []}
+    out = {"init_view": view0, "init_oracle": canon(fn(pool[0])), "hist": []}
     fn_oracle = fn
     nested_obs = None
     for opi, op in enumerate(case["ops"]):
@@ -500,6 +523,12 @@ def run_case(case):
                     # the notifiers of the old trait): nothing changes, nothing may be lost
                     touched = ("t", id(o), op[2]) in matched
                     o.add_trait(op[2], Int(getattr(o, op[2])))
+                elif k == "ReAdd":
+                    # the instance trait is removed and added back (trait_added fires, the observers must be re-hooked);
+                    # its value is the default before and after: nothing observable changes
+                    touched = False
+                    o.remove_trait("extra")
+                    o.add_trait("extra", Int())
                 elif k == "AddDep":
                     # the optional dependency is defined on the instance only now
                     touched = ("t", id(o), "extra") in matched
@@ -546,6 +575,10 @@ def run_case(case):
                         c.extend([item(j) for j in a[0]])
                     elif k == "Reverse":
                         c.reverse()
+                    elif k == "SetSlice":
+                        # one slice assignment that keeps the items but changes their multiplicities (+ new items)
+                        old_ = list(c)
+                        c[:] = [old_[j] for j in range(len(old_)) for _ in range(a[0][j])] + [item(e) for e in a[1]]
                     elif k == "DSet":
                         c[a[0]] = pool[a[1]]
                     elif k == "DDel":
